@@ -25,7 +25,7 @@ SOFT_LIMIT = {"quick": 240, "thorough": 1500}
 REQUIRED_FUNCS = ["sempler/utils.py:add_edges", "sempler/utils.py:remove_edges"]
 REQUIRED_COUNTERS = {"quick": {"add:feasible": 2000, "add:infeasible": 300, "remove:feasible": 2000, "remove:infeasible": 300, "add:to-complete": 100, "remove:all": 100},
                      "thorough": {"add:feasible": 20000, "add:infeasible": 3000, "remove:feasible": 20000, "remove:infeasible": 3000, "add:to-complete": 100, "remove:all": 100}}
-N = {"quick": {"seeds": (None, 0, 7), "random": 1500}, "thorough": {"seeds": (None, 0, 1, 7, 42, 2**32 - 1), "random": 25000}}
+N = {"quick": {"seeds": (None, 0, 7), "random": 1500}, "thorough": {"seeds": (None, 0, 1, 7, 42, 2**32 - 1), "random": 250000}}
 
 
 def gen(tier, seed, shard, nshards):
